@@ -11,7 +11,7 @@
 #include <stdlib.h>
 #include <string.h>
 
-static dw_iface D;
+static dw_iface D, D2;          /* D2: an idle second interface of the same responder; it only ever ticks */
 static int is_flow;
 static struct { uint64_t last_send_ms; uint8_t sent_any; uint64_t last_frame_ms; uint8_t frame_any; } MON;
 /* reference session dictionary (API-level drivers): what the table SHOULD hold, independent of its slots */
@@ -20,6 +20,7 @@ static int rm_incomplete(void) { int n = 0; for (int k = 0; k < 4; k++) n += RM.
 
 /* -------------------------------------------------------------- monitors */
 static void on_hello(dw_iface *d) {
+    if (d != &D) { vf_violation("hello:sent-on-idle-interface", "periodic Hello at t=%llu ms on the second interface, which never saw a frame or a session", (unsigned long long)W.now_ms); return; }
     if (!W.in_tick) vf_violation("hello:sent-outside-tick", "send_hello entered outside automata_tick at t=%llu ms", (unsigned long long)W.now_ms);
     int incomplete = 0;
     for (int i = 0; i < SESSION_TABLE_MAX_ENTRIES; i++) { session_entry *e = &d->sessionTable->entries[i]; if (e->valid && !e->complete) incomplete++; }
@@ -42,6 +43,7 @@ static void on_hello(dw_iface *d) {
 static int DELTA[16]; static int NDELTA; static int NKEYS; static int WITH_MAP;
 static uint8_t KMAC[4][6]; static uint16_t KGEN[4];
 typedef struct evd { uint8_t kind; int arg; } evd;
+enum { K_TICK2 = 100 };
 enum { K_TICK, K_ADV, K_ADD, K_REFRESH2, K_COMPLETE, K_REMOVE, K_CLEAR, K_HELLO_RX, K_ENUM, K_BANDINIT, K_BEGUN, K_MAP_INACT, K_MAP,
        /* flow */ K_F_DISC, K_F_HELLO, K_F_RESET, K_F_CHARGE, K_F_EMIT };
 static evd EV[96]; static int NEV;
@@ -51,6 +53,7 @@ static void ev_name(int i, char *b, size_t cap) {
     evd e = EV[i];
     switch (e.kind) {
         case K_TICK: snprintf(b, cap, "tick"); break;
+        case K_TICK2: snprintf(b, cap, "tick of the idle second interface"); break;
         case K_ADV: snprintf(b, cap, "advance %d ms", e.arg); break;
         case K_ADD: snprintf(b, cap, "session_table_add(K%d,seq=1)", e.arg); break;
         case K_REFRESH2: snprintf(b, cap, "session_table_add(K%d,seq=2)", e.arg); break;
@@ -101,6 +104,7 @@ static void apply(int i) {
     band_state *band = D.enumerationAutomata->extra; mapping_state *ms = D.mappingAutomata->extra;
     switch (e.kind) {
         case K_TICK: rm_tick(); dw_tick(&D); break;
+        case K_TICK2: dw_tick(&D2); break;
         case K_ADV: W.now_ms += (uint64_t)e.arg; break;
         case K_ADD: case K_REFRESH2:
             session_table_add(D.sessionTable, KMAC[e.arg], KGEN[e.arg], e.kind == K_ADD ? 1 : 2);
@@ -141,7 +145,7 @@ static void build_alphabet(const char *mode) {
     memcpy(KMAC[2], vf_station[ST_M1], 6); KGEN[2] = 2; memcpy(KMAC[3], vf_station[ST_M3], 6); KGEN[3] = 1;
     NEV = 0;
 #define ADD(k, a) do { EV[NEV].kind = (k); EV[NEV].arg = (a); NEV++; } while (0)
-    ADD(K_TICK, 0);
+    ADD(K_TICK, 0); ADD(K_TICK2, 0);
     for (int i = 0; i < NDELTA; i++) ADD(K_ADV, DELTA[i]);
     if (is_flow) {
         ADD(K_F_DISC, 0); ADD(K_F_DISC, 2); ADD(K_F_DISC, 1); ADD(K_F_DISC, 4 | 2);
@@ -230,7 +234,7 @@ static uint64_t obs(void) { return 0x4000u + D.hello_calls * 0x9E3779B1u + D.enu
 
 /* start states reached by legal prefixes (mode start, --a 1..7) */
 static void root_setup(void) {
-    dw_init(&D, 0);
+    dw_init(&D, 0); dw_init(&D2, 1);
     memset(&MON, 0, sizeof MON); memset(&RM, 0, sizeof RM);
     dw_on_hello = on_hello;
     band_state *band = D.enumerationAutomata->extra; mapping_state *ms = D.mappingAutomata->extra;
